@@ -542,6 +542,67 @@ def get_seqs(tier):
     return _SEQS[tier]
 
 
+# ---- arrays that are not `list` objects ---------------------------------------------------------
+# A document handed to a resolver need not come from json.load: arrays may be tuples (or other sequence
+# types) wherever the program built the schema itself.  An array is an array whatever its Python type.
+def seq_kinds():
+    import collections
+    return [("list", list), ("tuple", tuple), ("UserList", collections.UserList), ("deque", collections.deque)]
+
+
+def seq_documents():
+    """(label, document, [(path, target)], [(prefix, token)]) over array types x lengths x two levels."""
+    out = []
+    for kname, K in seq_kinds():
+        for n in (1, 2, 3, 12):
+            leaves = [{"enum": [900000 + i]} for i in range(n)]
+            inner = K(leaves)
+            for where in ("root", "member", "nested"):
+                if where == "root":
+                    doc, base = inner, ()
+                elif where == "member":
+                    doc, base = {"items": inner, "0": {"enum": [1]}}, ("items",)
+                else:
+                    doc, base = {"a": K([K(leaves), {"enum": [2]}])}, ("a", 0)
+                pos = [(base + (i,), leaves[i]) for i in range(n)]
+                neg = [(base, t) for t in [str(n), str(n + 1)] + ARRAY_TOKENS]
+                out.append(("%s-%d-%s" % (kname, n, where), doc, pos, neg))
+    return out
+
+
+def run_sequences(unit, ctx):
+    _, shard, nsh = unit
+    ev = 0
+    outcomes, viol = {}, []
+    docs = seq_documents()
+    for i in range(shard, len(docs), nsh):
+        label, doc, pos, neg = docs[i]
+        for path, target in pos:
+            for sp in ("min", "full"):
+                frag = pointer.fragment(list(path), sp == "full")
+                ev += 1
+                k = judge_pos(observe(doc, frag), target)
+                key = "sequence-positive:%s:%s" % (label.split("-")[0], k or "exact-value")
+                outcomes[key] = outcomes.get(key, 0) + 1
+                if k is not None:
+                    viol.append({"signature": "C14|%s|array-type=%s" % (k, label.split("-")[0]), "size": len(label) + len(path),
+                                 "case": {"half": "sequence", "label": label, "path": list(path), "fragment": frag, "expect": "value"},
+                                 "detail": {"kind": k}})
+        for prefix, tok in neg:
+            frag = pointer.fragment(list(prefix) + [tok])
+            ev += 1
+            k = judge_neg(observe(doc, frag))
+            key = "sequence-negative:%s:%s" % (label.split("-")[0], k or "RefResolutionError")
+            outcomes[key] = outcomes.get(key, 0) + 1
+            if k is not None:
+                viol.append({"signature": "C14|%s|array-type=%s|array-token=%s" % (k, label.split("-")[0], CLASS_OF.get(tok, "past-the-end")),
+                             "size": len(label) + len(tok),
+                             "case": {"half": "sequence", "label": label, "path": list(prefix) + [tok], "fragment": frag, "expect": "error"},
+                             "detail": {"kind": k}})
+    return {"evaluations": ev, "nontrivial": ev, "violations": viol, "samples": [], "outcomes": outcomes,
+            "counters": {"sequence_type_cases": ev}}
+
+
 def plan(ctx):
     seqs = get_seqs(ctx.tier)
     n = 96 if ctx.tier == "quick" else 192
@@ -553,8 +614,10 @@ def plan(ctx):
             if sp != "raw" or "%" not in pointer.escape_token(t):
                 enc(sp, t)
     return {
-        "units": [(i, n) for i in range(n)],
-        "rule": ("documents = shape sequences (s1..sk), k <= %d: the root has shape s1, each of its children shape s2, "
+        "units": [(i, n) for i in range(n)] + [("sequences", i, 4) for i in range(4)],
+        "rule": ("ARRAY TYPES: arrays given as list / tuple / UserList / deque of length 1, 2, 3, 12 at the root, as a "
+                 "member and nested: every index (two spellings, identity of the value) and every non-index / "
+                 "past-the-end token.  documents = shape sequences (s1..sk), k <= %d: the root has shape s1, each of its children shape s2, "
                  "..., the children of the last shape are marker objects {\"enum\": [unique n]}; shapes = objects with "
                  "one of the designated colliding key sets over K (%s) plus their own marker, arrays of length "
                  "0,1,2,3,12, and childless string / integer / null / boolean / number leaves. Positive cases: every "
@@ -588,6 +651,8 @@ def plan(ctx):
 
 
 def run_unit(unit, ctx):
+    if unit[0] == "sequences":
+        return run_sequences(unit, ctx)
     shard, nshards = unit
     seqs = get_seqs(ctx.tier)
     keys = tier_keys(ctx.tier)
@@ -758,6 +823,17 @@ def run_unit(unit, ctx):
 
 
 def replay(case, ctx):
+    if case.get("half") == "sequence":
+        for label, doc, pos, neg in seq_documents():
+            if label == case["label"]:
+                obs = observe(doc, case["fragment"])
+                if case["expect"] == "error":
+                    k = judge_neg(obs)
+                else:
+                    target = [t for p, t in pos if list(p) == case["path"]][0]
+                    k = judge_pos(obs, target)
+                return {"reproduced": k is not None, "kind": k}
+        return {"reproduced": False, "note": "unknown label"}
     doc = case["document"]
     if case.get("via") == "validator":
         d = case["draft"]
